@@ -11,6 +11,7 @@ import (
 	"sort"
 	"strconv"
 	"strings"
+	"sync"
 	"time"
 
 	"gopkg.in/yaml.v3"
@@ -114,6 +115,7 @@ func replayCodec(args []string) int {
 	cases := fs.String("cases", "", "NDJSON cases printed by MC_Codec")
 	out := fs.String("out", "", "report file")
 	tables := fs.Int("tables", 2, "float tables per case")
+	workers := fs.Int("workers", 4, "parallel replay workers")
 	_ = fs.Parse(args)
 	seed := vhu.EnvSeed()
 	pool := advPool(seed)
@@ -122,55 +124,98 @@ func replayCodec(args []string) int {
 	var divergences []string
 	ndiv := 0
 	metaSeen := false
-	err := vhu.ReadNDJSON(*cases, func(line []byte) error {
-		var c codecCase
-		if err := json.Unmarshal(line, &c); err != nil {
-			return fmt.Errorf("bad case: %v", err)
-		}
-		if c.Kind == "meta" {
-			metaSeen = true
-			return checkMeta(&c)
-		}
-		raw := json.RawMessage(append([]byte(nil), line...))
-		// the float tables of a case depend on its canonical text only (so that a replay file reproduces them)
-		canon := string(line)
-		var generic interface{}
-		if json.Unmarshal(line, &generic) == nil {
-			if b, err := json.Marshal(generic); err == nil {
-				canon = string(b)
+	// cases are independent: a small pool of workers replays them, the report is folded under a mutex
+	type job struct{ line []byte }
+	jobs := make(chan job, 256)
+	var mu sync.Mutex
+	var wg sync.WaitGroup
+	var firstErr error
+	work := func() {
+		defer wg.Done()
+		for j := range jobs {
+			line := j.line
+			var c codecCase
+			if err := json.Unmarshal(line, &c); err != nil {
+				mu.Lock()
+				if firstErr == nil {
+					firstErr = fmt.Errorf("bad case: %v", err)
+				}
+				mu.Unlock()
+				continue
 			}
-		}
-		rep.Cases++
-		kinds[c.Kind]++
-		interesting := false
-		for t := 0; t < *tables; t++ {
-			tb := makeTable(pool, seed, canon, t)
-			res := &result{}
-			if p := vhu.Guard(func() { interesting = runCase(&c, tb, res) }); p != "" {
-				res.fail("codec/"+c.Kind+"/panic", "%s case panicked: %s", c.Kind, p)
+			if c.Kind == "meta" {
+				err := checkMeta(&c)
+				mu.Lock()
+				metaSeen = true
+				if err != nil && firstErr == nil {
+					firstErr = err
+				}
+				mu.Unlock()
+				continue
 			}
-			rep.Evaluations += res.evals
-			for _, f := range res.fails {
-				rep.Fail(map[string]interface{}{"case": raw, "what": f.what, "signature": f.sig, "table": t})
+			raw := json.RawMessage(line)
+			// the float tables of a case depend on its canonical text only (so that a replay file reproduces them)
+			canon := string(line)
+			var generic interface{}
+			if json.Unmarshal(line, &generic) == nil {
+				if b, err := json.Marshal(generic); err == nil {
+					canon = string(b)
+				}
 			}
-			for _, d := range res.divs {
+			interesting := false
+			var fails []map[string]interface{}
+			var divs []string
+			evals := 0
+			for t := 0; t < *tables; t++ {
+				tb := makeTable(pool, seed, canon, t)
+				res := &result{}
+				if p := vhu.Guard(func() { interesting = runCase(&c, tb, res) }); p != "" {
+					res.fail("codec/"+c.Kind+"/panic", "%s case panicked: %s", c.Kind, p)
+				}
+				evals += res.evals
+				for _, f := range res.fails {
+					fails = append(fails, map[string]interface{}{"case": raw, "what": f.what, "signature": f.sig, "table": t})
+				}
+				divs = append(divs, res.divs...)
+				if len(res.fails) > 0 {
+					break
+				}
+			}
+			mu.Lock()
+			rep.Cases++
+			kinds[c.Kind]++
+			rep.Evaluations += evals
+			for _, f := range fails {
+				rep.Fail(f)
+			}
+			for _, d := range divs {
 				ndiv++
 				if len(divergences) < 20 {
 					divergences = append(divergences, d)
 				}
 			}
-			if len(res.fails) > 0 {
-				break
+			if interesting {
+				rep.Nontrivial++
+				if c.Kind == "genome" {
+					rep.Sample(raw)
+				}
 			}
+			mu.Unlock()
 		}
-		if interesting {
-			rep.Nontrivial++
-			if c.Kind == "genome" {
-				rep.Sample(raw)
-			}
-		}
+	}
+	for w := 0; w < *workers; w++ {
+		wg.Add(1)
+		go work()
+	}
+	err := vhu.ReadNDJSON(*cases, func(line []byte) error {
+		jobs <- job{append([]byte(nil), line...)}
 		return nil
 	})
+	close(jobs)
+	wg.Wait()
+	if err == nil {
+		err = firstErr
+	}
 	if err != nil {
 		fmt.Println("vh_codec replay-codec:", err)
 		return 2
